@@ -104,7 +104,7 @@ inductive Stmt where
 /-- `origin`. -/
 inductive Origin where
   | none
-  | meta (acc : Expr) (key : String)
+  | accountMeta (acc : Expr) (key : String)
   | balance (acc : Expr) (asset : Expr)
 
 structure VarDecl where
